@@ -67,7 +67,9 @@ def main():
             meta.setdefault("rechecks", [])
             meta["rechecks"] = [r for r in meta["rechecks"] if r["check"] != check] + [
                 {"check": check, "tier": tier, "verdict": verdict, "lines": lines}]
-            json.dump(meta, open(mp, "w"), indent=1)
+            with open(mp + ".tmp", "w") as fh:
+                json.dump(meta, fh, indent=1)
+            os.replace(mp + ".tmp", mp)
             print("%-10s %-4s %-13s %5.1fs  %s" % (name, check, verdict, wall, (lines[0][:150] if lines else "")), flush=True)
     subprocess.run(["rm", "-rf", os.path.join(VERIF, "replays", "found")])
 
